@@ -1,4 +1,5 @@
 PROP = dict(
+    ready=True,
     coq=["theories/Properties/C17.v"],
     suites=[dict(bin="obs-paginate")],
     trusted=[
